@@ -347,6 +347,9 @@ impl Polynomial<Cmplx> {
             let gm = g - sq;
             let abp = gp.abs();
             let abm = gm.abs();
+            // |p'/p| is so large that its square overflowed: a root lies within m |p/p'| < 1e-76 of x.
+            // Keep the estimate; the NaN would otherwise select the restart branch below
+            if !( abp.is_finite() && abm.is_finite() ) { return; }
             if abp < abm { gp = gm; }
             let dx = if f64::max( abp, abm ) > 0.0 { 
                 Cmplx::new( m as f64, 0.0 ) / gp
